@@ -152,6 +152,10 @@ def import_shape_rule(crate, prop, rule="C03.R3"):
     calls = [t for _, t in es.calls() if fn_matches(t, r"export::generate_imports$")]
     ok = bool(calls) and all("WithoutGenerics" in (t["fn"].get("args") or [""])[0] for t in calls)
     r.inst(fn=es.path, generate_imports_at=[(t["fn"].get("args") or ["?"])[0] for t in calls], erased=ok)
+    own_deps = [t for blk, t in es.calls() if not es.is_cleanup(blk) and fn_matches(t, r"TS::dependencies$") and "WithoutGenerics" not in (t["fn"].get("args") or [""])[0]]
+    if own_deps:
+        # the list of dependencies is taken from T itself and handed on: the imports are those of the concrete instantiation
+        ok = False
     if not ok:
         r.fail(prop, "imports-on-unerased-type export_to_string", "generate_imports is not instantiated at <T as TS>::WithoutGenerics: concrete type arguments would be imported although the declaration is generic", es.file(), es.line())
     # self filter: the dependency's TypeId is compared with TypeId::of::<T>() - in the body (helpers spliced in) the
